@@ -84,7 +84,7 @@ theorem setOutgoing_eq (p : Proc) (id : Id) (out : List Id)
     unfold setOut
     by_cases h : n.id = id
     · have : n = nd' := eq_of_id_eq hnd hn hmem' (h.trans hid'.symm)
-      simp [h, this]
+      simp [this]
     · simp [h]
 
 theorem setOut_id (id : Id) (out : List Id) (n : Node) : (setOut id out n).id = n.id := by
@@ -193,7 +193,7 @@ theorem linkStore_core {o : Nat → Nat} (hinj : ∀ a b, o a = o b → a = b) {
   refine ⟨by omega, ?_, ?_, ?_, ?_, ?_, ?_⟩
   · -- nodup
     simp only [ids_unfold, List.map_append, List.map_cons, List.map_nil, map_setOut_ids]
-    simp only [List.nodup_cons, List.nodup_append, List.mem_append, List.mem_cons, List.mem_singleton,
+    simp only [List.nodup_cons, List.nodup_append, List.mem_append, List.mem_cons,
       List.not_mem_nil, or_false, not_or, List.nodup_nil, not_false_eq_true, and_true, true_and]
     refine ⟨⟨⟨hnd.1.1, fun h => hfresh.1 h.symm⟩, hnd.1.2, fun h => hsid.1 h.symm⟩,
       ⟨hnd.2.1, ?_⟩, ⟨hnd.2.2.1, ?_⟩, ?_⟩
@@ -210,7 +210,7 @@ theorem linkStore_core {o : Nat → Nat} (hinj : ∀ a b, o a = o b → a = b) {
   · -- below
     intro i hi
     simp only [ids_unfold, List.map_append, List.map_cons, List.map_nil, map_setOut_ids, List.mem_cons,
-      List.mem_append, List.mem_singleton, List.not_mem_nil, or_false] at hi
+      List.mem_append, List.not_mem_nil, or_false] at hi
     have old : ∀ j ∈ b.proc.ids, Below o lo n' ps' j := fun j hj => (inv.below j hj).mono (by omega) hps
     rcases hi with rfl | (hi | rfl) | (hi | rfl)
     · exact old _ (by simp [ids_unfold])
@@ -420,5 +420,76 @@ theorem buildProcess_wf {o : Nat → Nat} (hinj : ∀ a b, o a = o b → a = b) 
   · have := h1.2
     show n ≤ (addAll o (n + 2) (newPB o n).1 acts).2 + 4
     omega
+
+end Bpmn.Lemmas.Builder
+
+namespace Bpmn.Lemmas.Builder
+open Bpmn.Model.Builder
+
+/-! ### several processes built one after the other -/
+
+theorem Below.mono_lo {o : Nat → Nat} {lo lo' n : Nat} {ps ps' : List Nat} {i : Id}
+    (h : Below o lo n ps i) (hl : lo' ≤ lo) (hp : ∀ m ∈ ps, m ∈ ps') : Below o lo' n ps' i := by
+  rcases h with ⟨p, k, hl', hk, rfl⟩ | ⟨m, hm, rfl⟩
+  · exact Or.inl ⟨p, k, by omega, hk, rfl⟩
+  · exact Or.inr ⟨m, hp m hm, rfl⟩
+
+theorem below_disjoint {o : Nat → Nat} (hinj : ∀ a b, o a = o b → a = b) {lo1 hi1 lo2 hi2 : Nat} {ps1 ps2 : List Nat}
+    {i : Id} (h1 : Below o lo1 hi1 ps1 i) (h2 : Below o lo2 hi2 ps2 i) (hle : hi1 ≤ lo2)
+    (hps : ∀ m ∈ ps1, m ∉ ps2) : False := by
+  rcases h1 with ⟨p, k, _, hk, rfl⟩ | ⟨m, hm, rfl⟩
+  · rcases h2 with ⟨p', k', hl', _, heq⟩ | ⟨m', _, heq⟩
+    · injection heq with _ h
+      have := hinj _ _ h
+      omega
+    · cases heq
+  · rcases h2 with ⟨p', k', _, _, heq⟩ | ⟨m', hm', heq⟩
+    · cases heq
+    · injection heq with h
+      exact hps m hm (h ▸ hm')
+
+/-- each script starts at a value of the call counter not below the one the previous build ended with
+(in between the definitions builder may have drawn ids of its own) -/
+def Chained (o : Nat → Nat) : Nat → List (Nat × List (Kind × Option Nat)) → Prop
+  | _, [] => True
+  | lo, sc :: rest => lo ≤ sc.1 ∧ Chained o (buildProcess o sc.1 sc.2).2 rest
+
+def presetsOf (scripts : List (Nat × List (Kind × Option Nat))) : List Nat :=
+  scripts.flatMap (fun sc => sc.2.filterMap (·.2))
+
+def builtProcs (o : Nat → Nat) (scripts : List (Nat × List (Kind × Option Nat))) : List Proc :=
+  scripts.map (fun sc => (buildProcess o sc.1 sc.2).1)
+
+theorem built_ids_nodup {o : Nat → Nat} (hinj : ∀ a b, o a = o b → a = b) :
+    ∀ (scripts : List (Nat × List (Kind × Option Nat))) (lo : Nat), Chained o lo scripts →
+      (∀ sc ∈ scripts, ∀ a ∈ sc.2, actOk a.1) → (presetsOf scripts).Nodup →
+      ((builtProcs o scripts).flatMap Proc.ids).Nodup ∧
+      ∀ i ∈ (builtProcs o scripts).flatMap Proc.ids, ∃ hi, Below o lo hi (presetsOf scripts) i := by
+  intro scripts
+  induction scripts with
+  | nil => intro lo _ _ _; simp [builtProcs]
+  | cons sc rest ih =>
+    intro lo hch hok hnd
+    simp only [presetsOf, List.flatMap_cons, List.nodup_append] at hnd
+    obtain ⟨wf, hle⟩ := buildProcess_wf hinj sc.1 sc.2 (hok sc (by simp)) hnd.1
+    obtain ⟨ih1, ih2⟩ := ih (buildProcess o sc.1 sc.2).2 hch.2
+      (fun sc' h => hok sc' (List.mem_cons_of_mem _ h)) hnd.2.1
+    have hlo : lo ≤ sc.1 := hch.1
+    simp only [builtProcs, List.map_cons, List.flatMap_cons]
+    constructor
+    · rw [List.nodup_append]
+      refine ⟨wf.nodup, ih1, ?_⟩
+      intro a ha b hb hab
+      subst hab
+      obtain ⟨hi, hb'⟩ := ih2 a hb
+      exact below_disjoint hinj (wf.below a ha) hb' (Nat.le_refl _) (fun m hm hm' => hnd.2.2 m hm m hm' rfl)
+    · intro i hi
+      rcases List.mem_append.mp hi with hi | hi
+      · exact ⟨_, (wf.below i hi).mono_lo hlo (by intro m hm; simp [presetsOf, hm])⟩
+      · obtain ⟨hi', hb⟩ := ih2 i hi
+        exact ⟨hi', hb.mono_lo (by omega) (by
+          intro m hm
+          simp only [presetsOf, List.flatMap_cons, List.mem_append]
+          exact Or.inr hm)⟩
 
 end Bpmn.Lemmas.Builder
